@@ -71,6 +71,9 @@ fn run_case(rec: &mut Rec, d: &Value) {
             Rectangle::new(shb.top_left + Point::new(shb.size.width as i32, -2), big),
             Rectangle::new(shb.top_left + Point::new(-2, shb.size.height as i32), big),
             Rectangle::new(sb.top_left + Point::new(w / 2, h / 2), Size::zero()),
+            // a target that is exactly as large as the shape / as its stroke area
+            shb,
+            sb,
         ];
         let mut wobs = vec![];
         for wbox in wins {
